@@ -61,6 +61,9 @@ def families(tier, seed):
     n = 120 if tier == 'quick' else 1500
     for i in range(8):
         out.append(dict(name=f'closed-loop monitor streett games part {i}', run=gm.monitor('streett', seed * 100 + i, n // 8, 'cudd'), label='bounded'))
+    for i in range(4):
+        out.append(dict(name=f'closed-loop monitor streett games, implementation constructed again on the same automaton after its liveness lists changed length, part {i}',
+                        run=gm.rebuild_same_automaton('streett', seed * 100 + 70 + i, (60 if tier == 'quick' else 500), 'cudd' if i < 3 else 'autoref'), label='bounded'))
     out.append(dict(name='closed-loop monitor streett games (autoref)', run=gm.monitor('streett', seed * 100 + 50, n // 8, 'autoref'), label='bounded'))
     from contracts import optdiff as _od
     out.append(dict(name='same results with assert statements stripped (python -O), section C01', run=_od.family('C01'), label='bounded'))
